@@ -56,8 +56,8 @@ TRANSFORMS = [None, "legacy", "raw_plus1", "arr_plus1", "raw_fmax", "floor"]
 def bounds(tier):
     q = tier == "quick"
     return {
-        "gt": ("members N<=3,G<=2 (all <=2-mutation lists as sites) + N=4,G<=2 (<=1-mutation lists "
-               "+ all two-node pairs)" if q else
+        "gt": ("members N<=3,G<=2 (all <=2-mutation lists as sites) + N=4,G=1 (<=1-mutation lists "
+               "+ all two-node pairs) + N=4,G=2 (<=1-mutation lists, reduced argument set)" if q else
                "members N<=3,G<=3 and N=4,G<=2 (all <=2-mutation lists as sites), N=4,G=3 and N=5,G=1 "
                "(<=1-mutation lists + pairs); frac grid N<=3,G=2"),
         "mask": ("9 members (N<=2,G=3) x <=3-subsets of {0,.5,1,1.5,2.5}; 4 frac-grid members (L=2.25) x "
